@@ -176,8 +176,10 @@ def c_tag(ctx, case):
     def f(a):
         calls[a] += 1
         return a * 2 + 1
-    for env in ({"x": F(3, 2), "y": F(-2), "z": F(5, 4), "f": f},
-                {"x": F(0), "y": F(1), "z": F(-3), "f": f}, {"x": F(2), "y": F(2), "z": F(2), "f": f}):
+    curried = lambda v: (lambda w: v * w + 2)     # noqa: E731  (g(v) is a function: g(v)(w))
+    for env in ({"x": F(3, 2), "y": F(-2), "z": F(5, 4), "f": f, "g": curried},
+                {"x": F(0), "y": F(1), "z": F(-3), "f": f, "g": curried},
+                {"x": F(2), "y": F(2), "z": F(2), "f": f, "g": curried}):
         for e, t in zip(exprs, tagged):
             ctx.case(None)
             ctx.count("value_compared")
@@ -203,7 +205,7 @@ def c_tag(ctx, case):
         return
     # sharing: one plain evaluator over all outputs
     calls.clear()
-    env = {"x": F(3, 2), "y": F(-2), "z": F(5, 4), "f": f}
+    env = {"x": F(3, 2), "y": F(-2), "z": F(5, 4), "f": f, "g": curried}
     m = CountingEM(env)
     try:
         for t in tagged:
@@ -526,6 +528,25 @@ def workload(ctx):
             ctx.run("C12.tag", (exprs, share))
             if rng.random() < 0.3:
                 ctx.run("C12.tagger", exprs[0])
+        # calls whose FUNCTION is computed (g(a + b)(x)): what is repeated beneath the function
+        # is shared like what is repeated beneath an argument
+        f_, g_ = p.Variable("f"), p.Variable("g")
+        x_, y_, z_ = V[0], V[1], V[2]
+        for i, rep in enumerate([p.Call(f_, (y_,)), p.Sum((x_, y_)), p.Product((x_, y_, 3)), p.Power(y_, 2),
+                                 p.Quotient(x_, p.Sum((y_, 7))), p.Call(f_, (p.Sum((x_, 1)),))]):
+            rep2 = type(rep)(tuple(reversed(rep.children))) if isinstance(rep, (p.Sum, p.Product)) else \
+                G.deep_rebuild(rep)
+            for j, exprs in enumerate([
+                    [p.Call(p.Call(g_, (rep,)), (x_,)), p.Product((rep2, 2))],
+                    [p.Product((rep2, 2)), p.Call(p.Call(g_, (rep,)), (x_,))],
+                    [p.Call(p.Call(g_, (rep,)), (z_,)), p.Call(f_, (p.Sum((rep2, 5)),))],
+                    [p.Sum((p.Call(p.Call(g_, (rep,)), (z_,)), p.Call(p.Call(g_, (p.Sum((rep2, 1)),)), (z_,))))],
+                    [p.Call(p.Call(g_, (rep,)), (rep2,))],
+                    [p.Call(p.Call(g_, (p.Sum((rep, 4)),)), (x_,)), p.Call(p.Call(g_, (p.Sum((rep2, 4)),)), (y_,))]]):
+                if ctx.mine("computed-function"):
+                    ctx.case(("computed-function", i, j), True, n=0)
+                    ctx.count("computed_function_calls")
+                    ctx.run("C12.tag", (exprs, not ambiguous(exprs)))
         for i in range(ctx.per_shard(ctx.pick(400, 8000))):
             u = gen(rng, rng.randint(1, 3), [], ctx.hist)
             if not isinstance(u, OPS) or ambiguous([u]):
@@ -584,6 +605,7 @@ def workload(ctx):
             ctx.run("C12.helpers", None)
         for k, v in tr.handlers().items():
             ctx.count("handler:" + k, v)
+    ctx.floor("computed_function_calls", 30)
     ctx.floor("value_compared", 10000)
     ctx.floor("sharing_checked", 1000)
     ctx.floor("handler_entries_observed", 5000)
